@@ -348,10 +348,10 @@ def vectorized_ltf_plan(**args):
     L_grid[K_grid == 1] = N
     
     r_map = fs / L_grid
-    K_map = np.round((N - L_grid) / (xov * L_grid) + 1).astype(np.int64)
     L_map = L_grid.astype(np.int64)
-    # There are only N - L + 1 distinct segment positions
-    K_map = np.clip(K_map, 1, N - L_map + 1)
+    # There are only N - L + 1 distinct segment positions (clamped before the integer
+    # conversion: for overlaps within ~1e-15 of 1 the nominal count exceeds the int64 range)
+    K_map = np.clip(np.round((N - L_grid) / (xov * L_grid) + 1), 1, N - L_grid + 1).astype(np.int64)
 
     # --- Phase 2: Walk the map ---
     f_out, r_out, L_out, K_out = [], [], [], []
@@ -462,7 +462,7 @@ def new_ltf_plan(**args):
         if dftlen < Lmin: dftlen = Lmin
         
         # If only one segment possible, use the full data length
-        nseg = int(np.round((N - dftlen) / (xov * dftlen) + 1))
+        nseg = int(min(np.round((N - dftlen) / (xov * dftlen) + 1), N - dftlen + 1))
         if nseg == 1:
             dftlen = N
 
@@ -475,7 +475,7 @@ def new_ltf_plan(**args):
             fres = fi / bmin
             dftlen = int(np.round(fs/fres)) # Recalculate L if bmin was enforced
             if dftlen > N: dftlen = N
-            nseg = int(np.round((N - dftlen) / (xov * dftlen) + 1))
+            nseg = int(min(np.round((N - dftlen) / (xov * dftlen) + 1), N - dftlen + 1))
             if nseg == 1:
                 dftlen = N
             # Keep the DFT constraint r*L = fs for the integer segment length
